@@ -93,6 +93,7 @@ def check_move(ctx):
     ctx.unit('functions', 2)
     w = repo.walker(max_paths=ctx.max_paths)
     table = {}
+    extras = {}
     for side, fi, cursor in (('unpack', up, 'offset'), ('pack', pk, 'fragments.current_offset')):
         paths = w.paths(fi.node, cls=mv)
         ctx.unit('paths', len(paths))
@@ -113,6 +114,8 @@ def check_move(ctx):
                 continue
             norm = Opaque(cursor).visit(copy.deepcopy(v))
             table.setdefault((al, ref, kind), {})[side] = (norm, fi, p)
+            extra = sorted(g for g in gtexts(p) if not any(t in g for t in ('self.is_alignment', 'self.reference', 'isinstance(self.move_arg', 'callable(self.move_arg', 'isinstance(self.is_alignment')))
+            extras.setdefault((al, ref, kind), {})[side] = [canon_cursor(g, cursor) for g in extra]
             # (f)
             if side == 'pack':
                 writes = [e for e in p.effects if e.kind == 'call' and isinstance(e.call.func, ast.Attribute) and canon(e.call.func.value) == 'fragments'
@@ -130,6 +133,11 @@ def check_move(ctx):
     for n in ast.walk(up.node):
         if isinstance(n, ast.Subscript) and isinstance(n.value, ast.Name) and n.value.id == 'raw':
             ctx.violation('R8-move-only-moves', up, stmt_text(n), 'Move.unpack reads input bytes', n.lineno, clause='f')
+    for key, sd in sorted(extras.items(), key=lambda kv: str(kv[0])):
+        if set(sd) == {'unpack', 'pack'} and sd['unpack'] != sd['pack']:
+            fi_ = up if sd['unpack'] else pk
+            ctx.violation('R8-move-siblings', fi_, 'Move [%s, %s, %s]: unpack accepts only under %s, pack under %s' % ('align' if key[0] else 'move', key[1], key[2], sd['unpack'], sd['pack']),
+                          'one side rejects (or restricts) positions that the other side accepts: a packet that serializes cannot be parsed back, or the reverse', fi_.node.lineno, clause='b')
     ncases = 0
     for (al, ref, kind), sides in sorted(table.items(), key=lambda kv: (not kv[0][0], kv[0][1], kv[0][2])):
         label = '[%s, %s, %s]' % ('align' if al else 'move', ref, kind)
@@ -163,6 +171,10 @@ def check_move(ctx):
                     ctx.violation('R8-move-formula', fi, st, why, fi.node.lineno, clause='c')
     ctx.unit('move_cases', ncases)
     ctx.floor('Move (case, kind) pairs compared', ncases, 18)
+
+
+def canon_cursor(g, cursor):
+    return g.replace(cursor, 'CURSOR') if cursor != 'offset' else g.replace('offset', 'CURSOR')
 
 
 def check_pad(e, cursor, start, a_text):
@@ -352,6 +364,13 @@ def check_sequence_pads(ctx):
                         ctx.holds(rule, fi, stt, why + ' (start = 0: absolute alignment)', c.lineno, clause='d')
                     else:
                         ctx.violation(rule, fi, stt, why, c.lineno, clause='d')
+    # Sequence.pack never emits elements outside the padded per-element loop
+    for p in w.paths(pk.node, cls=sq):
+        if p.raises():
+            continue
+        direct = [e for e in p.effects if e.kind == 'call' and isinstance(e.call.func, ast.Attribute) and canon(e.call.func.value) == 'fragments' and e.call.func.attr in ('append', 'extend', 'insert')]
+        for e in direct:
+            ctx.violation(rule, pk, 'Sequence.pack path [%s]: %s' % ('; '.join(sorted(gtexts(p)))[:100], e.text()[:80]), 'elements are emitted in bulk, outside the loop that aligns each element: unpack pads between elements, pack does not', e.lineno, clause='d')
     # distinct (side, loop kind)
     kinds = {(o.statement.split(':')[0]) for o in ctx.obs if o.rule == rule}
     ctx.unit('pad_sites', len(kinds))
@@ -378,13 +397,42 @@ def _rename(e, old, new):
     return R().visit(copy.deepcopy(e))
 
 
+def check_loop_generators_uniform(ctx):
+    """the loop-block generators of codegen.py emit the same block for every member of the run:
+    no field kind (a Move, an Int of rare size...) is special-cased with inlined arithmetic"""
+    repo = ctx.repo
+    cg = repo.cls('CodeGenerator')
+    for mname in ('generate_code_for_loop_pack', 'generate_code_for_loop_unpack'):
+        fi = cg.methods.get(mname)
+        if fi is None:
+            ctx.undecided('R2-move-runs-as-a-field', (cg.file, 'CodeGenerator.' + mname), mname, 'generator not found')
+            continue
+        ts = [t for t in repo.templates() if t.func.id == fi.id]
+        branches = [n for n in ast.walk(fi.node) if isinstance(n, (ast.If, ast.IfExp)) and ('isinstance' in unparse(n.test) or 'type(' in unparse(n.test) or '.is_alignment' in unparse(n.test) or 'Move' in unparse(n.test))]
+        if len(ts) == 1 and not branches:
+            ctx.holds('R2-move-runs-as-a-field', fi, '%s: one block template for every member of the run' % mname, 'moves / alignments are executed by Move.%s, with the reference point' % ('pack' if 'pack' in mname.split('_')[-1] and 'unpack' not in mname else 'unpack'), fi.node.lineno, clause='e')
+        else:
+            ctx.violation('R2-move-runs-as-a-field', fi, '%s: %d block templates, %d kind tests' % (mname, len(ts), len(branches)), 'the generated code special-cases some field kinds instead of calling their own pack / unpack: inlined positioning ignores the reference point on one side only', fi.node.lineno, clause='e')
+
+
 def check(ctx):
     check_modifiers(ctx)
     check_move(ctx)
     check_sequence_pads(ctx)
+    layout = D.fields_tuple_layout(ctx.repo)
     for d in D.get_drivers(ctx.repo):
         ctx.unit('drivers')
         D.check_innermost(ctx, 'R2-innermost-pkt-pos', d)
+        # positioning pseudo-fields are run through their own pack / unpack by every driver
+        if d.origin == 'template':
+            sh = D.template_loop_shape(ctx, 'R2-move-runs-as-a-field', ctx.repo, d.kind)
+            if sh is not None:
+                D.check_call_signature(ctx, 'R2-move-runs-as-a-field', d, sh, layout, sh['template'].func, '%s loop block' % d.kind)
+        else:
+            sh = D.generic_loop_shape(ctx, 'R2-move-runs-as-a-field', d)
+            if sh is not None:
+                D.check_call_signature(ctx, 'R2-move-runs-as-a-field', d, sh, layout, d.where, d.label)
+    check_loop_generators_uniform(ctx)
     # skipped bytes become holes only if every insert -- an empty chunk included -- is recorded
     # and moves the cursor (C11 clauses 1, 2); the fill of holes is C11 clause 5
     from .c11 import check as c11_check
